@@ -117,6 +117,13 @@ Definition tk_at (l : nat) (u : st) : list tk :=
 
 Definition opname (o : option str) : str := match o with Some n => n | None => [] end.
 
+(** A call node: the macro expander applied to the children's trees (a plain call when no macro
+    has that name, receiver style and argument count). *)
+Definition call_ast (f : str) (tgt : option expr) (args : list expr) : expr :=
+  match expand_call f tgt args with Some e => e | None => ECall f tgt args end.
+Definition call_ok (f : str) (tgt : option expr) (args : list expr) : bool :=
+  match expand_call f tgt args with Some _ => true | None => false end.
+
 Fixpoint ast (t : st) : expr :=
   let many := (fix go (l : list st) : list expr :=
                  match l with [] => [] | r :: l' => ast r :: go l' end) in
@@ -127,8 +134,8 @@ Fixpoint ast (t : st) : expr :=
   | SNegDbl t => ELit (match double_literal true t with Some d => VDbl d | None => VNull end)
   | SSel a f => ESelect (ast a) f false
   | SIdx a i => ECall $"_[_]" None [ast a; ast i]
-  | SMCall a f args => ECall f (Some (ast a)) (many args)
-  | SCall f args => ECall f None (many args)
+  | SMCall a f args => call_ast f (Some (ast a)) (many args)
+  | SCall f args => call_ast f None (many args)
   | SLst es => EList (many es)
   | SMap kvs => EMap ((fix go (l : list (st * st)) : list (expr * expr) :=
                          match l with [] => [] | (k, v) :: l' => (ast k, ast v) :: go l' end) kvs)
@@ -170,8 +177,8 @@ Fixpoint wf_st (t : st) : Prop :=
   | SNegDbl t => double_literal true t <> None
   | SSel a _ => wf_st a
   | SIdx a i => wf_st a /\ wf_st i
-  | SMCall a f args => no_macro f true (length args) = true /\ wf_st a /\ all args
-  | SCall f args => no_macro f false (length args) = true /\ all args
+  | SMCall a f args => call_ok f (Some (ast a)) (map ast args) = true /\ wf_st a /\ all args
+  | SCall f args => call_ok f None (map ast args) = true /\ all args
   | SLst es => all es
   | SMap kvs => (fix go (l : list (st * st)) : Prop :=
                    match l with [] => True | (k, v) :: l' => wf_st k /\ wf_st v /\ go l' end) kvs
@@ -199,8 +206,8 @@ Fixpoint wf_stb (t : st) : bool :=
   | SNegDbl t => match double_literal true t with Some _ => true | None => false end
   | SSel a _ => wf_stb a
   | SIdx a i => wf_stb a && wf_stb i
-  | SMCall a f args => no_macro f true (length args) && wf_stb a && all args
-  | SCall f args => no_macro f false (length args) && all args
+  | SMCall a f args => call_ok f (Some (ast a)) (map ast args) && wf_stb a && all args
+  | SCall f args => call_ok f None (map ast args) && all args
   | SLst es => all es
   | SMap kvs => (fix go (l : list (st * st)) : bool :=
                    match l with [] => true | (k, v) :: l' => wf_stb k && wf_stb v && go l' end) kvs
